@@ -18,6 +18,22 @@ use std::collections::HashMap;
 /// stand-in for the crate's ignore matcher (globset based): a list of path suffixes, `*.lock` ~ ".lock"
 pub struct IgnoreMatcher(pub Vec<String>);
 fn should_ignore_file_with_matcher(path: &str, m: &IgnoreMatcher) -> bool { m.0.iter().any(|suf| path.ends_with(suf.as_str())) }
+/// the original text calls crate::utils::unescape_git_path: the REAL function (replay_items) under that path
+mod utils { pub use super::unescape_git_path; }
+/// independent reading of git's C-quoting (core.quotePath): "..." with \\ \" \t \n and \ooo octal bytes
+fn oracle_unquote(p: &str) -> String {
+    if !(p.len() >= 2 && p.starts_with('"') && p.ends_with('"')) { return p.to_string(); }
+    let b = p[1..p.len() - 1].as_bytes(); let mut out: Vec<u8> = vec![]; let mut i = 0;
+    while i < b.len() {
+        if b[i] == b'\\' && i + 1 < b.len() {
+            let c = b[i + 1];
+            if (b'0'..=b'7').contains(&c) { let mut v = 0u32; let mut k = 0; while k < 3 && i + 1 + k < b.len() && (b'0'..=b'7').contains(&b[i + 1 + k]) { v = v * 8 + (b[i + 1 + k] - b'0') as u32; k += 1; } out.push(v as u8); i += 1 + k; continue; }
+            out.push(match c { b'n' => b'\n', b't' => b'\t', b'r' => b'\r', b'a' => 7, b'b' => 8, b'f' => 12, b'v' => 11, x => x }); i += 2; continue;
+        }
+        out.push(b[i]); i += 1;
+    }
+    String::from_utf8_lossy(&out).to_string()
+}
 fn calculate_waiting_time(_t: &authorship::transcript::AiTranscript) -> u64 { 0 }
 macro_rules! derive_default_shim { () => {} }
 include!("@ITEMS@");
@@ -164,7 +180,7 @@ fn chk_numstat(c: &mut Ctx, suffixes: &[String], lines: &[String]) {
         if f.len() < 3 { continue; }
         let num = |x: &str| if x == "-" { Some(0u64) } else if !x.is_empty() && x.bytes().all(|b| b.is_ascii_digit()) { x.parse::<u64>().ok() } else { None };
         let (Some(a), Some(d)) = (num(f[0]), num(f[1])) else { continue; };
-        if suffixes.iter().any(|s| f[2].ends_with(s.as_str())) { continue; }
+        if suffixes.iter().any(|s| oracle_unquote(f[2]).ends_with(s.as_str())) { continue; }   // the REAL name decides, not git's quoted spelling
         wa += a; wd += d;
     }
     match guarded(|| region_numstat_sum(&stdout, IgnoreMatcher(suffixes.to_vec()), 0, 0)) {
@@ -178,14 +194,14 @@ fn chk_numstat(c: &mut Ctx, suffixes: &[String], lines: &[String]) {
     }
 }
 fn gen_numstat(g: &mut Rng, c: &mut Ctx) {
-    let paths = ["a.rs", "dir/b.lock", "third party/deps.lock", "release notes.lock", "notes v2.txt", "x y/z.rs", "Cargo.lock", "lock.rs"];
+    let paths = ["a.rs", "dir/b.lock", "third party/deps.lock", "release notes.lock", "notes v2.txt", "x y/z.rs", "Cargo.lock", "lock.rs", "\"caf\\303\\251.lock\"", "\"tab\\there.rs\"", "\"q\\\"uote.lock\""];
     let nums = ["0", "1", "7", "42", "-"];
     let mut lines: Vec<String> = vec![];
     for _ in 0..g.below(6) {
         match g.below(8) {
             0 => lines.push(String::new()),
             1 => lines.push("   ".into()),
-            _ => { let a = nums[g.below(5) as usize]; let d = if a == "-" { "-" } else { nums[g.below(4) as usize] }; lines.push(format!("{}\t{}\t{}", a, d, paths[g.below(8) as usize])); }
+            _ => { let a = nums[g.below(5) as usize]; let d = if a == "-" { "-" } else { nums[g.below(4) as usize] }; lines.push(format!("{}\t{}\t{}", a, d, paths[g.below(11) as usize])); }
         }
     }
     let suffixes: Vec<String> = if g.below(4) == 0 { vec![] } else { vec![".lock".to_string()] };
